@@ -702,6 +702,10 @@ class Flatten(EnvironmentFilter):
                     for target in targets:
                         new[target] = DiscreteReward(new['actions'],list(map(old[target],old['actions'])))
 
+                #the logged action is one of the offered actions so it is flattened like they are
+                if 'action' in old and old['action'] in old['actions']:
+                    new['action'] = new['actions'][old['actions'].index(old['action'])]
+
             yield new
 
 class Binary(EnvironmentFilter):
